@@ -59,7 +59,7 @@ RECURSIVE RandHints(_, _, _)
 RandHints(texts, x, i) ==
   IF i > Len(texts) THEN <<>>
   ELSE <<IF IsGlueText(texts[i]) THEN 0 ELSE (IF (x \div 32) % 4 = 0 THEN 1 + ((x \div 128) % 2) ELSE 0)>> \o RandHints(texts, Lcg(x), i + 1)
-GlueToks == <<" ", ", ", ".", "-", " ", ";", "!", "  ">>
+GlueToks == <<" ", ", ", ".", "-", " ", ";", "!", "  ", "", "\t">>
 
 ForLang(L, base) ==
   LET W == Words[L]
